@@ -102,6 +102,11 @@ def check_blocks(run, vecs):
                          "the source is not a template (offending token %s %s at %d:%d) but was parsed" %
                          (exp["attyp"], common.show(bytes(exp["atname"])), exp["line"], exp["col"]),
                          expected="an error", observed={"src": src})
+        elif v.get("fam") == "trunc":
+            if not exp["ok"] and err.get("line") and [err.get("line"), err.get("col")] not in [list(a) for a in exp["anchors"]]:
+                run.mismatch("C20 trunc: the error of a cut-off source names no anchor", v,
+                             "the position is neither the end of the input, the tokeniser's error, the last token nor a tag name",
+                             expected={"one of": exp["anchors"]}, observed={"src": src, "err": err})
         elif not exp["ok"] and exp["attyp"] in ("NAME", "OPERATOR") and (err.get("line"), err.get("col")) != (exp["line"], exp["col"]) \
                 and not (exp["attyp"] == "OPERATOR" and not err.get("line")):       # an error that reports no position reports no wrong one
             run.mismatch("C20 blocks: error not located at the offending tag name", v,
